@@ -55,14 +55,21 @@ Print Assumptions C09_gc_exact.
 
 (* ... and the by-digest references after GC (the code as it is, kl = true): a descriptor is
    resolvable by digest afterwards iff it carries a tag, or it was resolvable by digest
-   before and is live (swept content is never left listed; live content is never unlisted) *)
+   before and is live (swept content is never left listed; live content is never unlisted),
+   or -- the one exception, found by the long-history stream -- it was resolvable by digest
+   before, is a layer/config whose content is NOT stored and a live manifest lists it
+   (graph.Exists is true for such leaves: IndexAll records them by reference; reachable only
+   from an index.json that already named missing content, i.e. after AutoSaveIndex was off) *)
 Theorem C09_gc_digest_refs :
   forall succ subject manifest, acyclic succ -> subject_listed succ subject ->
   forall ords st, same_elements ords (candidates (idx st)) ->
   let st' := fst (gc succ subject manifest cfg_fixed true ords st) in
   forall d r, In (RDig d, r) (idx st') <->
     d = r /\ ((exists t, In (RTag t, r) (idx st)) \/
-              ((exists d', In (RDig d', r) (idx st)) /\ Live succ subject manifest st r)).
+              ((exists d', In (RDig d', r) (idx st)) /\
+               (Live succ subject manifest st r \/
+                (~ In r (blobs st) /\ manifest r = false /\
+                 exists p, Live succ subject manifest st p /\ In r (succ p))))).
 Proof. exact gc_digest_refs_final. Qed.
 Print Assumptions C09_gc_digest_refs.
 
